@@ -32,6 +32,10 @@ type SynGrammar struct {
 	LexExtra string
 	// NoLexDefs: do not render lexical definitions for the token ids (for -no_lexer grammars)
 	NoLexDefs bool
+	// Split: Prods is in file order as it stands and the alternatives of a nonterminal need not
+	// be adjacent: every run of productions with the same head is rendered as one rule, so a
+	// nonterminal may be defined by several rules ("A : x ; B : y ; A : z ;")
+	Split bool
 }
 
 func T(i int) Sym { return Sym{false, i} }
@@ -51,6 +55,12 @@ func (g *SynGrammar) errTerm() int {
 // order in which the alternatives are rendered, i.e. gocc's production numbering (+1 for S').
 func (g *SynGrammar) order() []int {
 	var ord []int
+	if g.Split {
+		for i := range g.Prods {
+			ord = append(ord, i)
+		}
+		return ord
+	}
 	for h := range g.NTs {
 		for i, p := range g.Prods {
 			if p.Head == h {
@@ -69,6 +79,44 @@ func (g *SynGrammar) normalize() {
 		ps = append(ps, g.Prods[i])
 	}
 	g.Prods = ps
+}
+
+// splitRules moves the last alternative of one nonterminal (with at least two alternatives and
+// not the last one defined) to the end of the file: the nonterminal is then defined by two
+// rules that are not adjacent. The grammar must be normalized. Reports whether it did.
+func (g *SynGrammar) splitRules(rng *rand.Rand) bool {
+	if g.Split || len(g.NTs) < 2 {
+		return false
+	}
+	var cand []int
+	for h := 0; h < len(g.NTs)-1; h++ {
+		n := 0
+		for _, p := range g.Prods {
+			if p.Head == h {
+				n++
+			}
+		}
+		if n >= 2 {
+			cand = append(cand, h)
+		}
+	}
+	if len(cand) == 0 {
+		return false
+	}
+	h := cand[rng.Intn(len(cand))]
+	last := -1
+	for i, p := range g.Prods {
+		if p.Head == h {
+			last = i
+		}
+	}
+	if last == len(g.Prods)-1 {
+		return false
+	}
+	mv := g.Prods[last]
+	g.Prods = append(append(g.Prods[:last:last], g.Prods[last+1:]...), mv)
+	g.Split = true
+	return true
 }
 
 func (g *SynGrammar) symString(s Sym) string {
@@ -112,17 +160,40 @@ func (g *SynGrammar) render() string {
 	if hdr != "" {
 		fmt.Fprintf(&b, "<< %s >>\n\n", hdr)
 	}
-	pn := 0
-	for h, nt := range g.NTs {
-		first := true
-		for _, p := range g.Prods {
-			if p.Head != h {
-				continue
+	// rules: runs of productions with the same head (all alternatives of a head, unless Split)
+	type rule struct {
+		head  int
+		prods []int
+	}
+	var rules []rule
+	if g.Split {
+		for i, p := range g.Prods {
+			if n := len(rules); n > 0 && rules[n-1].head == p.Head {
+				rules[n-1].prods = append(rules[n-1].prods, i)
+			} else {
+				rules = append(rules, rule{p.Head, []int{i}})
 			}
+		}
+	} else {
+		for h := range g.NTs {
+			r := rule{head: h}
+			for i, p := range g.Prods {
+				if p.Head == h {
+					r.prods = append(r.prods, i)
+				}
+			}
+			if len(r.prods) > 0 { // a nonterminal without productions: only in deliberately ill-formed grammars
+				rules = append(rules, r)
+			}
+		}
+	}
+	pn := 0
+	for _, r := range rules {
+		for n, pi := range r.prods {
+			p := g.Prods[pi]
 			pn++
-			if first {
-				fmt.Fprintf(&b, "%s\n  : ", nt)
-				first = false
+			if n == 0 {
+				fmt.Fprintf(&b, "%s\n  : ", g.NTs[r.head])
 			} else {
 				b.WriteString("  | ")
 			}
@@ -153,9 +224,6 @@ func (g *SynGrammar) render() string {
 				fmt.Fprintf(&b, "  << %s >>", p.Action)
 			}
 			b.WriteString("\n")
-		}
-		if first {
-			continue // nonterminal without productions (only possible for deliberately ill-formed grammars)
 		}
 		b.WriteString("  ;\n")
 	}
@@ -226,6 +294,7 @@ type synGenOpts struct {
 	ErrorAlts                     bool    // add alternatives that begin with `error`
 	Actions                       bool    // logging actions on a random subset of alternatives
 	Reduced                       bool    // remove unproductive nonterminals (C06's domain)
+	PSplit                        float64 // probability that one nonterminal is defined by two rules that are not adjacent
 }
 
 var litPool = []string{"+", "-", "*", "(", ")", ";", ",", "if", "else", "==", "=", "x y", "é", "a b", "日本"}
@@ -342,6 +411,9 @@ func genSynGrammar(rng *rand.Rand, o synGenOpts) *SynGrammar {
 	}
 	g.pruneTerms()
 	g.normalize()
+	if o.PSplit > 0 && rng.Float64() < o.PSplit {
+		g.splitRules(rng)
+	}
 	return g
 }
 
@@ -501,7 +573,29 @@ func curatedSyn() []*SynGrammar {
 		// three adjacent optional parts, the last alternative made of nullable symbols only
 		synG([]string{"S", "A", "B", "C"}, []string{"a", "b", "c", "z"},
 			P(0, N(1), N(2), N(3), T(3)), P(0, T(3), N(1), N(2)), P(1), P(1, T(0)), P(2), P(2, T(1)), P(3), P(3, T(2))),
+		// a nonterminal defined by two rules that are not adjacent
+		splitG(synG([]string{"Stmt", "Expr"}, []string{"\"let\"", "\"print\"", "x", "\"+\""},
+			P(0, T(0), T(2)), P(1, T(2)), P(1, N(1), T(3), T(2)), P(0, T(1), N(1)))),
+		// long right-recursive chains (a cascade of reductions at the end of the input)
+		synG([]string{"Type", "Base"}, []string{"name", "\"->\"", "\"(\"", "\")\""},
+			P(0, N(1)), P(0, N(1), T(1), N(0)), P(1, T(0)), P(1, T(2), N(0), T(3))),
 	}
+}
+
+// splitG marks a grammar whose Prods are written in file order with non-adjacent rules for one
+// nonterminal (synG normalizes: it is undone here by moving the last alternative of the first
+// nonterminal to the end).
+func splitG(g *SynGrammar) *SynGrammar {
+	last := -1
+	for i, p := range g.Prods {
+		if p.Head == 0 {
+			last = i
+		}
+	}
+	mv := g.Prods[last]
+	g.Prods = append(append(g.Prods[:last:last], g.Prods[last+1:]...), mv)
+	g.Split = true
+	return g
 }
 
 // curatedErrSyn: grammars with error alternatives (C07)
@@ -522,6 +616,13 @@ func curatedErrSyn() []*SynGrammar {
 		// error is a look-ahead of a reduction in a state that cannot shift it, and no state on
 		// the stack can: the error entry that Error() finds is a reduce
 		synG([]string{"Z", "A", "Pq"}, []string{"x", "error", "z"}, P(0, N(1), N(2)), P(1, T(0)), P(2, T(1), T(2))),
+		// an error alternative behind a nullable prefix, below an outer error alternative: the state
+		// after x has error in FIRST of what it expects but cannot shift it
+		synG([]string{"S", "B", "A", "C"}, []string{"x", "error", "y", "a", "z", "w"},
+			P(0, T(0), N(1)), P(0, T(1), T(2)), P(1, N(2), N(3)), P(2), P(2, T(3)), P(3, T(4)), P(3, T(1), T(5))),
+		// the end of the input is acceptable after error
+		synG([]string{"U", "D", "M"}, []string{"v", "\";\"", "b", "e", "error"},
+			P(0, N(1), N(2)), P(1, T(0), T(1)), P(1, T(4), T(1)), P(2, T(2), T(3)), P(2, T(4))),
 	}
 }
 
@@ -531,7 +632,7 @@ func (g *SynGrammar) withoutErrorAlts() *SynGrammar {
 	if e < 0 {
 		return g
 	}
-	h := &SynGrammar{NTs: g.NTs, Terms: g.Terms, IsLit: g.IsLit}
+	h := &SynGrammar{NTs: g.NTs, Terms: g.Terms, IsLit: g.IsLit, Split: g.Split}
 	for _, p := range g.Prods {
 		if len(p.Body) > 0 && !p.Body[0].NT && p.Body[0].Idx == e {
 			continue
